@@ -4,12 +4,48 @@ import ast as pyast
 import builtins
 import contextlib
 import io
+import json
+import os
 import random
 
 from native.helper import register, outcome, enc
 from spec import dsl_ref, lex_ref
 
 SINK = io.StringIO()
+
+
+class Budget:
+    """once a harness HAS failures and has run longer than `soft_s` seconds it stops exploring: the bounded obligation is
+    refuted either way, and code that blows up (a structure growing from call to call, say) would otherwise keep the
+    check busy until its timeout.  Never stops a run that has no failure, so it cannot turn a violation into a pass."""
+
+    def __init__(self, req, snapshot=None):
+        import time
+        self.clock = time.monotonic
+        self.t0 = self.clock()
+        self.soft = req.get("soft_s", 60)
+        self.stopped = False
+        self.snapshot = snapshot
+
+    def failed(self):
+        """journal the partial result after every recorded failure: a product call that never returns (compiled code does not
+        see signals) is killed by the verifier's watchdog, which then reads the failures found so far from the journal"""
+        path = os.environ.get("VERIF_JOURNAL")
+        if not path or self.snapshot is None:
+            return
+        try:
+            d = self.snapshot()
+            d["killed"] = True
+            with open(path + ".tmp", "w") as f:
+                json.dump(d, f, default=lambda o: len(o) if isinstance(o, (set, frozenset)) else str(o))
+            os.replace(path + ".tmp", path)
+        except Exception:      # noqa - the journal is best effort
+            pass
+
+    def stop(self, fails):
+        if fails and self.clock() - self.t0 > self.soft:
+            self.stopped = True
+        return self.stopped
 
 
 def quiet(fn, *a, **k):
@@ -164,10 +200,14 @@ def pipeline_diff(req):
     stats = {"programs": 0, "calls": 0, "module_execs": 0, "asts": 0, "distinct_outcomes": set()}
     sentinel = {"n": 0}
 
+    budget = Budget(req, lambda: {"failures": fails, "stats": dict(stats, stopped_early="helper killed by the watchdog inside a product call that did not return"),
+                                  "bound": "journal of an unfinished run (seed %d)" % req.get("seed", 0)})
+
     def fail(clause, d):
         lst = fails.setdefault(clause, [])
         if len(lst) < limit:
             lst.append(d)
+            budget.failed()
     saved_print = builtins.print
 
     def spy(*a, **k):
@@ -195,6 +235,9 @@ def pipeline_diff(req):
             progs.append((exp, text))
     nfixed = 0 if only else len(FIXED_PROGRAMS) + len(big_programs())
     for pi, (exp, text) in enumerate(progs):
+        if budget.stop(fails):
+            stats["stopped_early"] = "failures found and %d s used: %d of %d programs explored" % (budget.soft, pi, len(progs))
+            break
         st, back = dsl_ref.parse_text(text)
         if st != "ok" or not same_value(back, exp) and not only and pi >= nfixed:
             # the generator/renderer/reference-parser triple must round-trip; otherwise the case is not usable
@@ -255,6 +298,8 @@ def pipeline_diff(req):
                     e2[f] = v
                 envs.append(e2)
         for env in envs:
+            if budget.stop(fails):
+                break
             stats["calls"] += 1
             exp_out = dsl_ref.evaluate(exp, env)
             builtins.print = spy
@@ -355,15 +400,20 @@ def mutants_diff(req):
     limit = req.get("limit", 2)
     fails = {}
     stats = {"mutants": 0, "rejected_by_ref": 0, "accepted_by_ref": 0}
+    budget = Budget(req, lambda: {"failures": fails, "stats": dict(stats, stopped_early="helper killed by the watchdog"), "bound": "journal of an unfinished run"})
 
     def fail(clause, d):
         lst = fails.setdefault(clause, [])
         if len(lst) < limit:
             lst.append(d)
+            budget.failed()
     junk = ["=", ".", ";", "@", "#", "$", "&", "|", "~", "`", "?", "%", "^", "[", "]", "\\", "=<", "=>", ".5", "1.", "def", "junk junk", "}", "{", "return", "weighted", '"unterminated',
             "\ufeff", "\u00ef\u00bb\u00bf", "\u00bb", "\u200b", "\u00a0@", "\x00", "\u2060", "\ufffe"]
     insertable = ["and", "or", "not", "(", ")", ",", "==", "1", '"s"', "x", "if", "else", "{", "}", "weighted", "return", "-", ":", "in"]
     for i in range(count):
+        if budget.stop(fails):
+            stats["stopped_early"] = "failures found and %d s used: %d of %d programs explored" % (budget.soft, i, count)
+            break
         exp = dsl_ref.gen_experiment(rnd)
         try:
             text = dsl_ref.render(exp)
@@ -513,7 +563,12 @@ def tv_diff(req):
             except ValueError:
                 continue
     fails, n = [], 0
+    budget = Budget(req, lambda: {"evaluations": n, "failures": fails, "bound": "journal of an unfinished run"})
     for exp, text in progs:
+        if fails:
+            budget.failed()
+        if budget.stop(fails):
+            break
         for expose in (False, True):
             n += 1
             try:
